@@ -266,6 +266,16 @@ func (ex *Exec) builtin(g *G, fr *Frame, b *ssa.Builtin, cc *ssa.CallCommon, arg
 			}
 		}
 		done(ex.intC(n))
+	case "clear":
+		sl, ok := args[0].(SliceV)
+		if !ok {
+			ex.unsupported("clear of a map")
+		}
+		for i := 0; i < sl.Len; i++ {
+			k := sl.Arr.Kids[sl.Off+i]
+			ex.store(k, ex.zero(k.T))
+		}
+		done(nil)
 	case "delete":
 		m := args[0].(MapV)
 		if m.M != nil {
